@@ -83,9 +83,9 @@ theorem C07_map (f : Q → X) (A : DFTA σ Q) (hd : A.Det)
     one position of a rule leads to a rule whose target has the same name) keeps the language.
     `C07_map` is the special case of an injective `c`. -/
 theorem C07_quotient (c : Q → X) (A : DFTA σ Q) (hd : A.Det)
-    (hc : congruenceCert A c (allStates A) = true) (t : Tree σ) :
+    (hc : congruenceCert A c (stateSet A) = true) (t : Tree σ) :
     (mapStates c A).accepts t = A.accepts t :=
-  accepts_quotient A hd c hc t
+  accepts_quotient A hd c _ (allStates_subset_stateSet A) hc t
 
 /-- **minimise, determinism.** Whatever partition the refinement loop ends with, for every
     initial class order, every `mapping` and every number of passes, the returned table has no
@@ -106,13 +106,13 @@ theorem C07_min_lang_cert (f : List Q → X) (A : DFTA σ Q) (hd : A.Det) (cls0 
     (fuel : Nat) (M : DFTA σ X) (h : minimiseCore f A cls0 cls1 fuel = some M) :
     ∃ st, minimiseState A cls0 cls1 fuel = some st ∧
       M = mapStates (fun q => f (clsTuple st q)) A ∧
-      (congruenceCert A (fun q => f (clsTuple st q)) (allStates A) = true →
+      (congruenceCert A (fun q => f (clsTuple st q)) (stateSet A) = true →
         ∀ t, M.accepts t = A.accepts t) := by
   obtain ⟨st, hst, e⟩ := minimiseCore_eq f A cls0 cls1 fuel M h
   refine ⟨st, hst, e, ?_⟩
   intro hc t
   rw [e]
-  exact accepts_quotient A hd _ hc t
+  exact accepts_quotient A hd _ _ (allStates_subset_stateSet A) hc t
 
 /-! ### non-vacuity: cyclic automata over {z/0, s/1, f/2} -/
 namespace Example
@@ -141,9 +141,11 @@ def mod4 : DFTA String Nat :=
 example : (minimise mod4).map (fun M => M.rules) =
     some [(("z", []), [2, 0]), (("s", [[2, 0]]), [3, 1]), (("s", [[3, 1]]), [2, 0])] := by decide
 example : (minimiseState mod4 [0, 2] [1, 3] 6).map
-    (fun st => congruenceCert mod4 (clsTuple st) (allStates mod4)) = some true := by decide
+    (fun st => congruenceCert mod4 (clsTuple st) (stateSet mod4)) = some true := by decide
 -- a non-injective renaming that is not a congruence fails the certificate
-example : congruenceCert mod4 (fun q => q % 3) (allStates mod4) = false := by decide
+example : congruenceCert mod4 (fun q => q % 3) (stateSet mod4) = false := by decide
+end Example
+
 /-- **Finding C07-F1** (repaired by proposed_fixes/C07-F1.diff).  On the two rules `z -> 0`,
     `s(0) -> 0` with no final state the language is empty, yet the old `__remove_unproductive__`
     keeps both rules (state 0 is "consumed" by its own cycle): `reduce()` did not return a trim
@@ -153,6 +155,5 @@ def deadCycle : DFTA String Nat := { rules := [(("z", []), 0), (("s", [0]), 0)],
 theorem finding_C07_F1 :
     (removeUnproductiveOld (removeUnreachable deadCycle) 5).rules = deadCycle.rules ∧
     (reduce deadCycle).rules = [] := by decide
-end Example
 
 end PS.C07
